@@ -17,8 +17,8 @@
 (*      cut, so every completed behaviour IS a run of the modelled method on real functions,                 *)
 (*   D  states the property: a completed run that satisfies the initial condition has metric <= tau + tol,  *)
 (*   E  enumerates the parameter grid of the covered examples inside their documented ranges (spec -> code).*)
-EXTENDS LinForm, TLC, Json
-CONSTANTS Progs,        \* sequence of programs (cfg: BuiltinProgs, or the traces recorded from the real code)
+EXTENDS LinForm, TLC, Json, IOUtils
+CONSTANTS TraceMode,    \* FALSE: the built-in programs; TRUE: the programs recorded from the real code (ndjson, IOEnv.TRACE_FILE)
           NMax,         \* largest iteration count of the parameter grid
           Reduced       \* TRUE: smaller member families (quick tier)
 \* ------------------------------------------------------------------------------------------ A  numbers
@@ -90,7 +90,10 @@ SVal(m, u) == LET w == GSub(u, m.c) IN
      [] OTHER -> Z
 \* resolvent: the u with (p - u)/gam a subgradient at u
 SRes(m, gam, p) == LET w == GSub(p, m.c)  ga == GMul(gam, m.a)  den == GAdd(One, ga) IN
-   CASE m.k = "quad" -> IF IsBad(den) \/ den[1] <= 0 THEN Bad ELSE GAdd(m.c, GDiv(w, den))
+   \* quadratics: the stationarity equation has a unique solution for every gam with 1 + gam a # 0 (also gam < 0: the
+   \* sample (p - gam g, g) is then still a (point, gradient) pair of the member); other kinds: gam > 0 only
+   CASE m.k = "quad" -> IF IsBad(den) \/ den[1] = 0 THEN Bad ELSE GAdd(m.c, GDiv(w, den))
+     [] ~Safe(gam) \/ gam[1] <= 0 -> Bad
      [] m.k = "huber" -> IF IsBad(w) \/ IsBad(den) \/ ~Safe(GMul(m.d, den)) THEN Bad
                          ELSE IF Leq(RAbs(w), GMul(m.d, den)) THEN GAdd(m.c, GDiv(w, den)) ELSE GSub(p, GMul(GMul(ga, m.d), Sg(w)))
      [] m.k = "abs" -> IF IsBad(w) \/ ~Safe(ga) THEN Bad ELSE IF Leq(RAbs(w), ga) THEN m.c ELSE GSub(p, GMul(ga, Sg(w)))
@@ -233,7 +236,7 @@ ResOK(m) == LET D == IF IsLin(m) THEN 2 ELSE 1
             \A p \in P, gam \in {Half, One, Two} :
                LET u == VRes(m, gam, p) IN
                \* an undefined resolvent (Bad) abandons the run; a defined one must satisfy the inclusion
-               (m.k = "quad" /\ GAdd(One, GMul(gam, m.a))[1] <= 0) \/ ~VSafe(u) \/ VIn(m, u, GVScale(GDiv(One, gam), GVSub(p, u)))
+               ~VSafe(u) \/ VIn(m, u, GVScale(GDiv(One, gam), GVSub(p, u)))
 \* parameter settings on which the families are validated
 ParGrid == {<<l, mu, mm, dd, b, Bad>> : l \in {One, Two, Half, Bad}, mu \in {Bad, Z, R(1, 4), Half}, mm \in {Bad, One}, dd \in {Bad, One}, b \in {Bad, One, Half}}
 ParFor(cls) == {p \in ParGrid :
@@ -248,13 +251,16 @@ FamilySoundAt(cls, par) == \A i \in 1..Len(Family(cls, par)) :
      LET m == Family(cls, par)[i] IN (IF cls \in OpClasses THEN DefOp(cls, par, m) ELSE DefFun(cls, par, m)) /\ ResOK(m)
 \* ------------------------------------------------------------------------------------------ C  programs
 RVj(j) == [i \in 1..Len(j.n) |-> <<j.n[i], j.d[i]>>]
-Supp(j) == {i \in 1..Len(j.n) : j.n[i] # 0}
+Supp(j) == {j.s[i] : i \in 1..Len(j.s)}          \* j.s = indices of the non-zero coefficients (SuppOK checks it)
+SuppDef(j) == {i \in 1..Len(j.n) : j.n[i] # 0}
 FSupp(e) == {i \in 1..Len(e.Fn) : e.Fn[i] # 0}
 PairsOf(np) == PairSeq(np)
 GSuppPts(e, np) == LET ps == PairsOf(np) IN UNION {{ps[i][1], ps[i][2]} : i \in {i \in 1..Len(e.Gn) : e.Gn[i] # 0}}
 ParOf(fr) == [i \in 1..Len(fr.par) |-> <<fr.par[i][1], fr.par[i][2]>>]
 Supported(T) == T.status = "ok" /\ \A i \in 1..Len(T.funcs) : T.funcs[i].cls \in Classes /\ Len(Family(T.funcs[i].cls, ParOf(T.funcs[i]))) > 0
-FamOf(T, i) == Family(T.funcs[i].cls, ParOf(T.funcs[i]))
+\* programs with several functions: the first members of each family only (the product is what is explored)
+FamCap(T) == IF Len(T.funcs) = 1 THEN 99 ELSE IF Len(T.funcs) = 2 THEN (IF Reduced THEN 3 ELSE 5) ELSE (IF Reduced THEN 2 ELSE 3)
+FamOf(T, i) == LET f == Family(T.funcs[i].cls, ParOf(T.funcs[i])) IN SubSeq(f, 1, IF Len(f) < FamCap(T) THEN Len(f) ELSE FamCap(T))
 RECURSIVE ProdLen(_, _)
 ProdLen(T, i) == IF i > Len(T.funcs) THEN 1 ELSE Len(FamOf(T, i)) * ProdLen(T, i + 1)
 NTuples(T) == IF Supported(T) THEN ProdLen(T, 1) ELSE 0
@@ -264,16 +270,19 @@ Radix(T, i, r) == IF i > Len(T.funcs) THEN <<>> ELSE
 TupleOf(T, mi) == Radix(T, 1, mi - 1)
 DimOf(mem) == IF \E i \in 1..Len(mem) : IsLin(mem[i]) THEN 2 ELSE 1
 \* leaves that matter
-UsedPts(T) == UNION {Supp(T.samples[s].x) \cup Supp(T.samples[s].g) : s \in 1..Len(T.samples)}
+UsedDef(T) == UNION {SuppDef(T.samples[s].x) \cup SuppDef(T.samples[s].g) : s \in 1..Len(T.samples)}
               \cup UNION {GSuppPts(T.init[i].e, T.np) : i \in 1..Len(T.init)}
               \cup UNION {GSuppPts(T.metrics[i], T.np) : i \in 1..Len(T.metrics)}
+UsedPts(T) == {T.used[i] : i \in 1..Len(T.used)}      \* precomputed by the driver; ProgOK checks it against UsedDef
+ProgOK(T) == /\ UsedPts(T) = UsedDef(T)
+             /\ \A s \in 1..Len(T.samples) : Supp(T.samples[s].x) = SuppDef(T.samples[s].x) /\ Supp(T.samples[s].g) = SuppDef(T.samples[s].g)
 Unset == <<>>
 Un(pv) == {k \in DOMAIN pv : pv[k] = Unset}
 \* sum_{i # skip} coef_i * pv_i  (all needed leaves assigned)
 RECURSIVE LinFrom(_, _, _, _, _)
-LinFrom(j, pv, skip, i, D) == IF i > Len(j.n) THEN VZero(D) ELSE
-    LET rest == LinFrom(j, pv, skip, i + 1, D) IN
-    IF j.n[i] = 0 \/ i = skip THEN rest ELSE GVAdd(GVScale(<<j.n[i], j.d[i]>>, pv[i]), rest)
+LinFrom(j, pv, skip, i, D) == IF i > Len(j.s) THEN VZero(D) ELSE
+    LET k == j.s[i]  rest == LinFrom(j, pv, skip, i + 1, D) IN
+    IF k = skip THEN rest ELSE GVAdd(GVScale(<<j.n[k], j.d[k]>>, pv[k]), rest)
 Lin(j, pv, skip, D) == LinFrom(j, pv, skip, 1, D)
 SUn(T, pv, s) == (Supp(T.samples[s].x) \cup Supp(T.samples[s].g)) \cap Un(pv)
 \* a completely evaluated sample must be a (point, subgradient) pair of its member: "ok" | "no" | "big"
@@ -288,8 +297,9 @@ Min(Sx) == CHOOSE a \in Sx : \A b \in Sx : a <= b
 IsFixedPointSample(sm) == Cardinality(Supp(sm.x)) = 1 /\ sm.x = sm.g
 PureGLeaves(T) == {k \in 1..T.np : \E s \in 1..Len(T.samples) : Supp(T.samples[s].g) = {k} /\ ~IsFixedPointSample(T.samples[s])}
 GuessLeaves(T, pv) == {k \in Un(pv) \cap UsedPts(T) : k \notin PureGLeaves(T)}
-GridPts(D) == IF D = 1 THEN {<<R(n, 2)>> : n \in -2..4}
-              ELSE {<<R(n, 2), Z>> : n \in -2..2} \cup {<<Z, One>>, <<Z, MOne>>, <<One, One>>, <<Half, Half>>, <<One, MOne>>}
+\* guesses: the distinguished points of the members and points at distance 1/2 and 1 from them (the members are
+\* symmetric about their centre: one negative offset is kept to catch sign errors)
+Offsets(D) == IF D = 1 THEN {<<One>>, <<Half>>, <<MOne>>} ELSE {<<One, Z>>, <<Half, Z>>, <<Z, One>>, <<MOne, Z>>, <<Half, Half>>}
 MemPts(mem, D) == UNION {{Cen(mem[i], D)} \cup (IF mem[i].k = "ind" THEN {[c \in 1..D |-> mem[i].d]} \cup (IF D = 2 THEN {<<mem[i].c, mem[i].d>>, <<mem[i].d, mem[i].c>>} ELSE {}) ELSE {}) : i \in 1..Len(mem)}
 \* the kinds of step, for the coverage record
 StepKind(T, mem, pv, D) ==
@@ -314,9 +324,9 @@ Values(T, mem, pv, D, sk) ==
      [] sk[1] = "implicit" ->
           LET sm == T.samples[s]  p == Lin(sm.x, pv, k, D)  kap == <<sm.x.n[k], sm.x.d[k]>>  ck == <<sm.g.n[k], sm.g.d[k]>>
               lam == GNeg(GDiv(kap, ck))
-          IN IF IsBad(lam) \/ lam[1] <= 0 THEN {}
+          IN IF IsBad(lam) \/ lam[1] = 0 THEN {}
              ELSE LET u == VRes(mem[sm.fn], lam, p) IN {GVScale(GDiv(One, kap), GVSub(u, p))}
-     [] sk[1] = "guess" -> GridPts(D) \cup MemPts(mem, D)
+     [] sk[1] = "guess" -> MemPts(mem, D) \cup {GVAdd(c, o) : c \in MemPts(mem, D), o \in Offsets(D)}
      [] OTHER -> {}
 \* function values: every sample fixes f = member(x); solved leaf by leaf
 GEVal(e, pv, fv, np) ==
@@ -358,6 +368,35 @@ Outcome(T, mem, pv, D) ==
       ELSE IF ~fcons THEN [code |-> "cut", micro |-> 0]
       ELSE IF ~feas THEN [code |-> "infeasible", micro |-> 0]
       ELSE [code |-> IF ToMicro(perf) > T.tau + Tol(T.tau) THEN "BEATS" ELSE "ok", micro |-> ToMicro(perf)]
+\* ------------------------------------------------------------------------------------------ built-in programs
+\* hand-written object graphs of gradient descent (n = 1, gamma = 1, L = 1; tau = L/(4 n L gamma + 2) = 1/6) and of the
+\* proximal point method (n = 1, gamma = 1; tau = 1/(4 gamma n) = 1/4), to validate the machine before any code is involved
+JP(v) == [n |-> [i \in 1..Len(v) |-> v[i][1]], d |-> [i \in 1..Len(v) |-> v[i][2]],
+          s |-> SelectSeq([i \in 1..Len(v) |-> i], LAMBDA i : v[i][1] # 0)]
+JE(fv, gv, c) == [Fn |-> [i \in 1..Len(fv) |-> fv[i][1]], Fd |-> [i \in 1..Len(fv) |-> fv[i][2]],
+                  Gn |-> [i \in 1..Len(gv) |-> gv[i][1]], Gd |-> [i \in 1..Len(gv) |-> gv[i][2]], c |-> c]
+ZG4 == [i \in 1..10 |-> Z]
+DistSq12 == [ZG4 EXCEPT ![1] = One, ![2] = R(-2, 1), ![5] = One]       \* (p1 - p2)^2 over 4 leaf points
+NoPar == <<Bad, Bad, Bad, Bad, Bad, Bad>>
+JPar(p) == [i \in 1..6 |-> <<p[i][1], p[i][2]>>]
+BuiltinProgs == <<
+  [ex |-> "builtin_gd", kws |-> "n=1", status |-> "ok", np |-> 4, ne |-> 3, tau |-> 166667, used |-> <<1, 2, 3, 4>>,
+   funcs |-> <<[cls |-> "SmoothConvexFunction", par |-> JPar(<<One, Bad, Bad, Bad, Bad, Bad>>)]>>,
+   samples |-> <<[fn |-> 1, x |-> JP(<<One, Z, Z, Z>>), g |-> JP(<<Z, Z, Z, Z>>), f |-> JE(<<One, Z, Z>>, ZG4, <<0, 1>>)],
+                 [fn |-> 1, x |-> JP(<<Z, One, Z, Z>>), g |-> JP(<<Z, Z, One, Z>>), f |-> JE(<<Z, One, Z>>, ZG4, <<0, 1>>)],
+                 [fn |-> 1, x |-> JP(<<Z, One, MOne, Z>>), g |-> JP(<<Z, Z, Z, One>>), f |-> JE(<<Z, Z, One>>, ZG4, <<0, 1>>)]>>,
+   init |-> <<[e |-> JE(<<Z, Z, Z>>, DistSq12, <<-1, 1>>), sense |-> "ineq"]>>,
+   metrics |-> <<JE(<<MOne, Z, One>>, ZG4, <<0, 1>>)>>],
+  [ex |-> "builtin_ppa", kws |-> "n=1", status |-> "ok", np |-> 3, ne |-> 2, tau |-> 250000, used |-> <<1, 2, 3>>,
+   funcs |-> <<[cls |-> "ConvexFunction", par |-> JPar(NoPar)]>>,
+   samples |-> <<[fn |-> 1, x |-> JP(<<One, Z, Z>>), g |-> JP(<<Z, Z, Z>>), f |-> JE(<<One, Z>>, [i \in 1..6 |-> Z], <<0, 1>>)],
+                 [fn |-> 1, x |-> JP(<<Z, One, MOne>>), g |-> JP(<<Z, Z, One>>), f |-> JE(<<Z, One>>, [i \in 1..6 |-> Z], <<0, 1>>)]>>,
+   init |-> <<[e |-> JE(<<Z, Z>>, [[i \in 1..6 |-> Z] EXCEPT ![1] = One, ![2] = R(-2, 1), ![4] = One], <<-1, 1>>), sense |-> "ineq"]>>,
+   metrics |-> <<JE(<<MOne, One>>, [i \in 1..6 |-> Z], <<0, 1>>)>>] >>
+\* the machine is sharp on the built-in programs: some run reaches the bound up to the tolerance
+\* (checked by the harness from the printed records)
+\* a constant-level definition: TLC evaluates it once (a cfg substitution "Progs <- ..." is re-evaluated at every use)
+Progs == IF TraceMode THEN ndJsonDeserialize(IOEnv.TRACE_FILE) ELSE BuiltinProgs
 \* ---- the machine
 VARIABLES tid, mi, mem, pv, st, res, item, hist
 vars == <<tid, mi, mem, pv, st, res, item, hist>>
@@ -366,64 +405,38 @@ Init == /\ tid \in 1..Len(Progs)
         /\ mi \in 1..NTuples(Progs[tid])
         /\ mem = TupleOf(Progs[tid], mi)
         /\ pv = [k \in 1..Progs[tid].np |-> IF k \in UsedPts(Progs[tid]) THEN Unset ELSE VZero(DimOf(TupleOf(Progs[tid], mi)))]
+        /\ ProgOK(Progs[tid])
         /\ st = "run" /\ res = NoRes /\ item = [t |-> "run", ex |-> "-", p |-> <<>>, c |-> "-", par |-> <<>>]
         /\ hist = [explicit |-> 0, implicit |-> 0, subgradient |-> 0, guess |-> 0]
 TT == Progs[tid]
 DD == DimOf(mem)
-Cut(pv2, k) == \E s \in Complete(TT, pv2) : k \in Supp(TT.samples[s].x) \cup Supp(TT.samples[s].g) /\ SampleCheck(TT, mem, pv2, s, DD) = "no"
-BigAt(pv2, k) == ~VSafe(pv2[k]) \/ \E s \in Complete(TT, pv2) : k \in Supp(TT.samples[s].x) \cup Supp(TT.samples[s].g) /\ SampleCheck(TT, mem, pv2, s, DD) = "big"
-Assign(kind) ==
-   /\ st = "run" /\ Un(pv) \cap UsedPts(TT) # {}
-   /\ LET sk == StepKind(TT, mem, pv, DD) IN
-      /\ sk[1] = kind
-      /\ \E v \in Values(TT, mem, pv, DD, sk) :
-            LET pv2 == [pv EXCEPT ![sk[2]] = v] IN
-            /\ pv' = pv2
-            /\ IF BigAt(pv2, sk[2]) THEN st' = "big" ELSE ~Cut(pv2, sk[2]) /\ st' = "run"
-      /\ hist' = [hist EXCEPT ![kind] = 1]
-      /\ UNCHANGED <<tid, mi, mem, res, item>>
-Explicit == Assign("explicit")
-Implicit == Assign("implicit")
-Subgradient == Assign("subgradient")
-Guess == Assign("guess")
-Stuck == /\ st = "run" /\ Un(pv) \cap UsedPts(TT) # {} /\ StepKind(TT, mem, pv, DD)[1] = "stuck"
-         /\ st' = "stuck" /\ UNCHANGED <<tid, mi, mem, pv, res, item, hist>>
+\* verdicts of the samples that became completely evaluated by giving leaf k its value
+Checks(pv2, k) == LET un == Un(pv2) IN
+   {SampleCheck(TT, mem, pv2, s, DD) : s \in {q \in 1..Len(TT.samples) :
+         /\ k \in Supp(TT.samples[q].x) \cup Supp(TT.samples[q].g)
+         /\ (Supp(TT.samples[q].x) \cup Supp(TT.samples[q].g)) \cap un = {}}}
+\* one step: the leaf chosen by StepKind gets one of its candidate values (the kind of step is recorded in hist)
+Step == /\ st = "run" /\ Un(pv) \cap UsedPts(TT) # {}
+        /\ LET sk == StepKind(TT, mem, pv, DD) IN
+           IF sk[1] = "stuck" THEN st' = "stuck" /\ UNCHANGED <<pv, hist>>
+           ELSE /\ \E v \in Values(TT, mem, pv, DD, sk) :
+                     LET pv2 == [pv EXCEPT ![sk[2]] = v] IN
+                     /\ pv' = pv2
+                     /\ LET ch == IF VSafe(v) THEN Checks(pv2, sk[2]) ELSE {"big"} IN
+                        IF "big" \in ch THEN st' = "big" ELSE "no" \notin ch /\ st' = "run"
+                /\ hist' = [hist EXCEPT ![sk[1]] = 1]
+        /\ UNCHANGED <<tid, mi, mem, res, item>>
 Finish == /\ st = "run" /\ Un(pv) \cap UsedPts(TT) = {}
           /\ res' = Outcome(TT, mem, pv, DD) /\ st' = "done" /\ UNCHANGED <<tid, mi, mem, pv, item, hist>>
-Next == Explicit \/ Implicit \/ Subgradient \/ Guess \/ Stuck \/ Finish
+Next == Step \/ Finish
 Spec == Init /\ [][Next]_vars
 \* C09
 NoRunBeatsBound == st = "done" => res.code # "BEATS"
 \* one JSON line per completed / abandoned run: ["R", tid, member tuple, code, metric in 1e-6 units, step kinds used]
 Report == (st \in {"done", "stuck", "big"} /\ (st = "done" => res.code \in {"ok", "BEATS", "stuck", "big"})) =>
              PrintT(ToJson(<<"R", tid, mi, IF st = "done" THEN res.code ELSE st, res.micro,
-                             hist.explicit, hist.implicit, hist.subgradient, hist.guess>>))
-\* ------------------------------------------------------------------------------------------ built-in programs
-\* hand-written object graphs of gradient descent (n = 1, gamma = 1, L = 1; tau = L/(4 n L gamma + 2) = 1/6) and of the
-\* proximal point method (n = 1, gamma = 1; tau = 1/(4 gamma n) = 1/4), to validate the machine before any code is involved
-JP(v) == [n |-> [i \in 1..Len(v) |-> v[i][1]], d |-> [i \in 1..Len(v) |-> v[i][2]]]
-JE(fv, gv, c) == [Fn |-> [i \in 1..Len(fv) |-> fv[i][1]], Fd |-> [i \in 1..Len(fv) |-> fv[i][2]],
-                  Gn |-> [i \in 1..Len(gv) |-> gv[i][1]], Gd |-> [i \in 1..Len(gv) |-> gv[i][2]], c |-> c]
-ZG4 == [i \in 1..10 |-> Z]
-DistSq12 == [ZG4 EXCEPT ![1] = One, ![2] = R(-2, 1), ![5] = One]       \* (p1 - p2)^2 over 4 leaf points
-NoPar == <<Bad, Bad, Bad, Bad, Bad, Bad>>
-JPar(p) == [i \in 1..6 |-> <<p[i][1], p[i][2]>>]
-BuiltinProgs == <<
-  [ex |-> "builtin_gd", kws |-> "n=1", status |-> "ok", np |-> 4, ne |-> 3, tau |-> 166667,
-   funcs |-> <<[cls |-> "SmoothConvexFunction", par |-> JPar(<<One, Bad, Bad, Bad, Bad, Bad>>)]>>,
-   samples |-> <<[fn |-> 1, x |-> JP(<<One, Z, Z, Z>>), g |-> JP(<<Z, Z, Z, Z>>), f |-> JE(<<One, Z, Z>>, ZG4, <<0, 1>>)],
-                 [fn |-> 1, x |-> JP(<<Z, One, Z, Z>>), g |-> JP(<<Z, Z, One, Z>>), f |-> JE(<<Z, One, Z>>, ZG4, <<0, 1>>)],
-                 [fn |-> 1, x |-> JP(<<Z, One, MOne, Z>>), g |-> JP(<<Z, Z, Z, One>>), f |-> JE(<<Z, Z, One>>, ZG4, <<0, 1>>)]>>,
-   init |-> <<[e |-> JE(<<Z, Z, Z>>, DistSq12, <<-1, 1>>), sense |-> "ineq"]>>,
-   metrics |-> <<JE(<<MOne, Z, One>>, ZG4, <<0, 1>>)>>],
-  [ex |-> "builtin_ppa", kws |-> "n=1", status |-> "ok", np |-> 3, ne |-> 2, tau |-> 250000,
-   funcs |-> <<[cls |-> "ConvexFunction", par |-> JPar(NoPar)]>>,
-   samples |-> <<[fn |-> 1, x |-> JP(<<One, Z, Z>>), g |-> JP(<<Z, Z, Z>>), f |-> JE(<<One, Z>>, [i \in 1..6 |-> Z], <<0, 1>>)],
-                 [fn |-> 1, x |-> JP(<<Z, One, MOne>>), g |-> JP(<<Z, Z, One>>), f |-> JE(<<Z, One>>, [i \in 1..6 |-> Z], <<0, 1>>)]>>,
-   init |-> <<[e |-> JE(<<Z, Z>>, [[i \in 1..6 |-> Z] EXCEPT ![1] = One, ![2] = R(-2, 1), ![4] = One], <<-1, 1>>), sense |-> "ineq"]>>,
-   metrics |-> <<JE(<<MOne, One>>, [i \in 1..6 |-> Z], <<0, 1>>)>>] >>
-\* the machine is sharp on the built-in programs: some run reaches the bound up to the tolerance
-\* (checked by the harness from the printed records)
+                             hist.explicit, hist.implicit, hist.subgradient, hist.guess, [i \in 1..Len(mem) |-> mem[i].k],
+                             IF st = "done" /\ res.code = "BEATS" THEN [i \in 1..Len(mem) |-> <<mem[i].a, mem[i].c, mem[i].d>>] ELSE <<>>>>))
 \* ------------------------------------------------------------------------------------------ E  parameter grid
 KV(k, r) == [k |-> k, n |-> r[1], d |-> r[2]]
 RECURSIVE Prod(_)
@@ -469,14 +482,16 @@ GridSpec == <<
   <<"gradient_descent_contraction", << <<"L", {One}>>, <<"mu", {R(1, 4)}>>, <<"gamma", {Half, One, R(3, 2)}>>, <<"n", Ns>> >> >>,
   <<"gradient_descent_lyapunov_1", << <<"L", {One, Two}>>, <<"gamma", {One, Half}>>, <<"n", Ns>> >> >>,
   <<"gradient_descent_lyapunov_2", << <<"L", {One, Two}>>, <<"gamma", {One, Half}>>, <<"n", Ns>> >> >>,
+  <<"potential_accelerated_gradient_method", << <<"L", {One, Two}>>, <<"gamma", {One, Half}>>, <<"lam", {Z, R(3, 8)}>> >> >>,
   <<"polyak_steps_in_distance_to_optimum", << <<"L", {One}>>, <<"mu", {R(1, 4)}>>, <<"gamma", {One, Two, R(4, 3)}>> >> >>,
   <<"polyak_steps_in_function_value", << <<"L", {One}>>, <<"mu", {R(1, 4)}>>, <<"gamma", {One, R(3, 2)}>> >> >>,
   <<"gradient_descent_silver_stepsize_convex", << <<"L", {One}>>, <<"n", {One}>> >> >>,
   <<"gradient_descent_silver_stepsize_strongly_convex", << <<"L", {One}>>, <<"mu", {R(1, 4)}>>, <<"n", {One}>> >> >> >>
 \* documented ranges (docstrings of the examples): step sizes / parameters outside are not part of the claim
 InRange(ex, a) ==
-  CASE ex \in {"gradient_descent", "nonconvex_gradient_descent", "gradient_descent_lyapunov_1", "gradient_descent_lyapunov_2"} ->
-          Lt(Z, Get(a, "gamma")) /\ Leq(GMul(Get(a, "gamma"), Get(a, "L")), Two)
+  CASE ex = "gradient_descent" -> Lt(Z, Get(a, "gamma")) /\ Leq(GMul(Get(a, "gamma"), Get(a, "L")), R(3, 2))
+    [] ex = "nonconvex_gradient_descent" -> Lt(Z, Get(a, "gamma")) /\ Leq(GMul(Get(a, "gamma"), Get(a, "L")), One)       \* "when gamma <= 1/L"
+    [] ex \in {"gradient_descent_lyapunov_1", "gradient_descent_lyapunov_2", "potential_accelerated_gradient_method"} -> GMul(Get(a, "gamma"), Get(a, "L")) = One   \* "when gamma = 1/L"
     [] ex = "gradient_descent_qg_convex" -> Leq(GMul(Get(a, "gamma"), Get(a, "L")), One)
     [] ex = "heavy_ball_momentum" -> /\ Leq(GMul(Get(a, "alpha"), Get(a, "L")), One)           \* alpha in (0, 1/L], beta = sqrt((1 - alpha mu)(1 - L alpha))
                                      /\ GSq(Get(a, "beta")) = GMul(GSub(One, GMul(Get(a, "alpha"), Get(a, "mu"))), GSub(One, GMul(Get(a, "L"), Get(a, "alpha"))))
